@@ -344,6 +344,9 @@ def main():
                 if rep['reach'].get(nm, 0) == 0:
                     faults.append(f'vacuous: clause {nm} was never reached')
 
+    for c in getattr(mod, 'BOUNDED_FUNCTIONS', []):
+        functions.append({'name': c.name, 'target': c.target, 'class': 'BOUNDED',
+                          'reason': c.notes or 'outside the reach of the SMT back ends; bounded stand-in only'})
     n_obl = len(obligations)
     n_dis = sum(1 for o in obligations.values() if o['sat'] == 0 and o['unknown'] == 0)
     if n_obl == 0 and not undecided:
@@ -372,22 +375,11 @@ def main():
         if 'error' in bounded:
             faults.append('bounded stand-in crashed: ' + bounded['error'][-1500:])
         else:
-            for fl in bounded.get('failures', []):
-                e = None
+            for kid in bounded.get('known_hits', {}):
                 for k in known:
-                    if k['obligation'] == fl['obligation']:
-                        cls = k.get('witness_class')
-                        fn = getattr(mod, cls, None) if cls else None
-                        try:
-                            if cls is None or (fn is not None and fn(fl['witness'])):
-                                e = k
-                        except Exception:
-                            pass
-                if e is not None:
-                    if e['id'] not in [k['id'] for k in known_matched]:
-                        known_matched.append(e)
-                    continue
-                bounded_viol.append(fl)
+                    if k['id'] == kid and kid not in [x['id'] for x in known_matched]:
+                        known_matched.append(k)
+            bounded_viol.extend(bounded.get('failures', []))
 
     for e in known_matched:
         lines.append(f"KNOWN-FINDING: property={pid} {e['obligation']} {e['what']}")
